@@ -212,6 +212,11 @@ pub fn run_jrnl(case: &Case) -> RunOutput {
             let _ = std::fs::remove_dir_all(&dir);
             return out;
         }
+        Err(crate::rt::SimStop::MainPanicked(message)) => {
+            crate::scen::main_panicked("C11", &message, &mut out);
+            let _ = std::fs::remove_dir_all(&dir);
+            return out;
+        }
         Err(stop) => {
             push(&mut out, "bounded_liveness", format!("run_never_ends@{mode}"), format!("{stop:?}"));
             let _ = std::fs::remove_dir_all(&dir);
